@@ -46,6 +46,8 @@ def make_rsa(rng, clsmap):
       arts[slot] = gen.rsa_healthy(rng, aid, 2048)
     elif c == 'healthy3072':
       arts[slot] = gen.rsa_healthy(rng, aid, 3072)
+    elif c == 'healthy4096':
+      arts[slot] = gen.rsa_healthy(rng, aid, 4096)
     elif c == 'small':
       arts[slot] = gen.rsa_small(rng, aid)
     elif c == 'exponent':
@@ -88,6 +90,10 @@ def make_ec(rng, clsmap):
       arts[slot] = gen.ec_key(rng, slot, 'secp256r1')
     elif c == 'healthy384':
       arts[slot] = gen.ec_key(rng, slot, 'secp384r1')
+    elif c in ('healthy224', 'healthy521', 'healthyk1', 'healthybp256', 'healthybp384', 'healthybp512'):
+      arts[slot] = gen.ec_key(rng, slot, {'healthy224': 'secp224r1', 'healthy521': 'secp521r1', 'healthyk1': 'secp256k1',
+                                          'healthybp256': 'brainpoolP256r1', 'healthybp384': 'brainpoolP384r1',
+                                          'healthybp512': 'brainpoolP512r1'}[c])
     elif c == 'weakcurve':
       arts[slot] = gen.ec_key(rng, slot, 'secp192r1', cls='healthy')
     elif c == 'weakprivate':
@@ -128,8 +134,33 @@ def make_ecdsa(rng, clsmap):
       groups[slot] = gen.healthy_sigs(rng, slot + '-', 'secp256r1', 3)
     elif c == 'healthy384':
       groups[slot] = gen.healthy_sigs(rng, slot + '-', 'secp384r1', 3)
+    elif c == 'healthy521':
+      groups[slot] = gen.healthy_sigs(rng, slot + '-', 'secp521r1', 3)
     elif c == 'msbA':
       groups[slot] = gen.msb_biased_sigs(rng, slot + '-', 'secp256r1', 8, 64)
+    elif c == 'msb384':
+      groups[slot] = gen.msb_biased_sigs(rng, slot + '-', 'secp384r1', 14, 64)
+    elif c == 'msbweak':
+      # bias below the documented margin: the lattice returns noise, which must be filtered out
+      sigs = gen.msb_biased_sigs(rng, slot + '-', 'secp256r1', 10, 8)
+      for sg in sigs:
+        sg.cls = 'msbweak'
+        sg.meta['crit'] = dict({x: 'may' for x in gen.ECDSA_CHECKS}, CheckIssuerKey='mustnot')
+      groups[slot] = sigs
+    elif c == 'msbneg':
+      # strongly biased nonces, but the issuer key carried by the signatures is the NEGATED public point: the private key
+      # a lattice recovers is not the logarithm of the recorded key, so nothing may be flagged with it
+      rc = nc['secp256r1'][2]
+      d = rng.randrange(2 ** 200, rc.n)
+      P = rc.mul(d, rc.g)
+      neg = rc.neg(P)
+      sigs = []
+      for i in range(8):
+        k = rng.randrange(1, 2 ** (256 - 64))
+        sg = gen.ecdsa_sig(rng, '%s-%d' % (slot, i), 'secp256r1', d, k, 'msbneg', pub=neg)
+        sg.meta['crit'] = dict({x: 'may' for x in gen.ECDSA_CHECKS}, CheckIssuerKey='mustnot')
+        sigs.append(sg)
+      groups[slot] = sigs
     elif c == 'invalidissuer':
       rc = nc['secp256r1'][2]
       d = rng.randrange(2, rc.n)
